@@ -32,11 +32,10 @@ Wrap1 ==
     \cup {Arr(t, n) : t \in Mix, n \in {0, 1, 3}}
     \cup {Opt(t) : t \in Mix}
     \cup {Res(t, e) : t \in {P("u8"), P("u32"), Str, P("unit")}, e \in {P("u8"), Str, Lib("IoError")}}
-    \cup {Bx(k, t) : k \in BoxKinds, t \in {P("u8"), P("u32"), Str, P("bool")}}
+    \cup ({Bx(k, t) : k \in BoxKinds, t \in {P("u8"), P("u32"), Str, P("bool")}} \ {Bx("Cell", Str)})
     \cup {Tup(<<a>>) : a \in Mix}
     \cup {Tup(<<a, b>>) : a \in P4 \cup {Str}, b \in P4 \cup {Str}}
     \cup {Tup(<<a, b, c>>) : a \in P3, b \in P3, c \in P3}
-    \cup {Tup(<<a, a, b, b>>) : a \in P3, b \in P3}
     \cup {Map(k, a, b) : k \in MapKinds, a \in {P("u8"), P("u32"), Str}, b \in {P("u8"), P("u32"), Str}}
     \cup {T("range", "", 0, <<t>>, <<>>) : t \in {}}
 
@@ -47,6 +46,11 @@ StructsQ ==
     \cup {Struct(r, <<a, b>>) : r \in Reprs, a \in Key6, b \in Key6}
     \cup {Struct(r, <<a, b, c>>) : r \in Reprs, a \in P3, b \in P3, c \in P3}
     \cup {T("struct", r, 1, <<a, b>>, <<Plain, Plain>>) : r \in Reprs, a \in P3, b \in P3}
+    \cup {Struct("Rust", <<a, b, c, d>>) : a \in {P("u32"), P("u64")}, b \in P3, c \in P3, d \in {P("u8"), P("u16")}}
+    \cup {Struct(r, <<a, w>>) : r \in Reprs, a \in {P("u8"), P("u32")},
+             w \in {Vec("ArrayVec", P("u8")), Vec("ArrayVec", P("u32")), Vec("SmallVec", P("u8")), Arr(P("u8"), 3),
+                    Arr(P("u16"), 2), Tup(<<P("u8"), P("u8")>>), Tup(<<P("u16"), P("u8")>>), Opt(P("u8")), Bx("Box", P("u32")),
+                    Lib("AtomicU8"), Lib("PhantomData"), Lib("ArcStr")}}
 StructsT ==
     StructsQ
     \cup {Struct(r, <<a, b>>) : r \in Reprs, a \in Mix, b \in Mix}
@@ -94,7 +98,7 @@ NoRd == R(FALSE, Unit, 0, "", <<>>)
 
 Init ==
     /\ t \in Catalogue
-    /\ \E i \in 1..Len(Vals(t)) : v = Vals(t)[i]
+    /\ LET vals == Vals(t) IN \E i \in 1..Len(vals) : v = vals[i]
     /\ ver = 0
     /\ phase = "write"
     /\ todo = Settle(<<Fr(t, v)>>, ver)
